@@ -18,6 +18,7 @@ import re
 
 from harness.translate import py2lean as T
 from harness.translate import gen as G
+from harness.translate import norm_alg as N
 
 V, S, I, B = "V", "S", "Int", "Bool"
 
@@ -636,7 +637,7 @@ SPECS = {
         consts={"self.gradf": FN("gradf", [V], V), "self.inv_hessf": FN("inv_hessf", [V, V], V, curried=True),
                 "self.f": FN("f", [V], S), "self.beta": Val(S, "beta")}),
     "GerchbergSaxton": dict(
-        data="GSData V S", fields=[("x", V), ("residual", S)], ops=True, res=True, fuel=True, cg=True,
+        data="GSData V S", fields=[("x", V), ("residual", S)], ops=True, res=True, fuel=True, cg=True, keep={"b"},
         consts={"self.A": Val("OP", fwd=lambda v: "(A %s)" % v, adj=lambda v: "(AH %s)" % v), "self.y": Val(V, "y"),
                 "self.lamb": Val(S, "lamb")},
         extra_params="(A AH : V → V) (y : V) (lamb : S)"),
@@ -693,6 +694,12 @@ def gen_update(tree, name):
     fn = T.find_function(cls, "_update")
     if [a.arg for a in fn.args.args] != ["self"] or fn.args.vararg or fn.args.kwarg or fn.args.kwonlyargs:
         raise U("%s._update signature" % name)
+    # spelling normal form (harness/translate/norm_alg.py): keywords of util.axpy / backend.copyto made positional against
+    # the callee's `def`, private single-expression helpers substituted, single-assignment temporaries with a pure
+    # right-hand side inlined (so that naming a subexpression does not change the `let` chain the theorems are about).
+    # `keep`: the locals of the committed source that are such temporaries themselves.
+    fn = N.normalise_update(tree, name, fn, keep=spec.get("keep", ()),
+                            model_pure={k for k, v in spec["consts"].items() if v.typ in ("FN", "OPTFN") and not v.__dict__.get("curried")})
     ex = Exec(tree, name, spec)
     env = Env(ex.sh)
     for k, v in spec["consts"].items():
